@@ -115,6 +115,49 @@ def raster_rules(check, P):
     return n
 
 
+def normalisation_rule(check, P):
+    """R6: stored heights are the samples divided by the full scale of the image's *type*."""
+    W = World(P, "RasterHeightMap", root_label="hm", ctor_args=[DATA])
+    I = W.I
+    img = Unk("arg.image", "array")
+    n = 0
+    seen = {}
+    for path in I.explore(lambda I_: None, lambda I_, _: W.call_method(I_, "hm", "_to_height_map", (img,)), max_dev=None, max_paths=200):
+        n += 1
+        d = [decisions_text(path)]
+        if path.outcome != "return":
+            check.violation("R6", f"raster:normalise-raises:{path.value.cls}", f"_to_height_map raises {path.value.cls}", d)
+            continue
+        div = [e for e in path.trace if e.kind == "EXT" and isinstance(e.data.get("callee"), ExtV) and e.data["callee"].name in ("numpy.divide", "numpy.true_divide")]
+        saved = I.heap
+        I.heap = path.heap
+        try:
+            ok_shape = len(div) == 1 and div[0].data["args"][:1] == (img,) and I.tag(path.value) == I.tag(div[0].data.get("result"))
+            divisor = div[0].data["args"][1] if ok_shape and len(div[0].data["args"]) > 1 else None
+            what = I.tag(path.value)[:80]
+        finally:
+            I.heap = saved
+        if not ok_shape or not (isinstance(divisor, Const) and isinstance(divisor.v, (int, float))):
+            check.undecided("R6", f"raster: normalisation not recognised ({what})")
+            continue
+        other = [k for k, _ in path.decisions if "arg.image" in k and "arg.image.dtype" not in k]
+        if other:
+            check.violation("R6", "raster:divisor-from-data", f"_to_height_map chooses its divisor ({divisor.v:g}) by looking at the samples ({other[0][:90]}): "
+                            "a dark 16-bit image is then normalised like an 8-bit one; the full scale must follow from the sample type alone", d)
+            continue
+        is16 = [v for k, v in path.decisions if "uint16" in k and "arg.image.dtype" in k]
+        if len(is16) != 1:
+            check.undecided("R6", f"raster: the divisor {divisor.v:g} is not selected by a single test of the sample type")
+            continue
+        seen[is16[0]] = float(divisor.v)
+    if seen == {True: 65535.0, False: 255.0}:
+        check.ok("R6", "raster: samples / 65535 for uint16 images, / 255 otherwise, selected by the dtype alone")
+    elif seen:
+        check.violation("R6", "raster:full-scale", f"_to_height_map divides by {seen.get(True)} for uint16 images and by {seen.get(False)} otherwise; expected 65535 and 255", [])
+    check.floor(n >= 2, "C19.R6: _to_height_map has fewer than two abstract paths")
+    return n
+
+
 def sparse_rules(check, P):
     W, evs, cpath = construction_events(P, "SparseHeightMap")
     I = W.I
@@ -378,7 +421,8 @@ def run(check, repo, tier):
     check.rule("R3", "every path sample is (x, y, get_depth_at(x, y)) of the same x and y")
     check.rule("R4", "tolerance filter: first kept, keep iff |z - z_lastkept| >= tolerance, last appended once")
     P = Program(repo)
-    n = raster_rules(check, P) + sparse_rules(check, P)
+    check.rule("R6", "raster maps store sample / full scale of the sample type (65535 for uint16, 255 otherwise), chosen by the dtype alone")
+    n = raster_rules(check, P) + sparse_rules(check, P) + normalisation_rule(check, P)
     for cls in ("RasterHeightMap", "SparseHeightMap"):
         n += pairing_and_filter(check, P, cls, 6 if tier == "thorough" else 4)
     check.analysed = {"program": P.stats(), "abstract_paths": n, "classes": ["RasterHeightMap", "SparseHeightMap"]}
